@@ -270,7 +270,7 @@ func runC01(c *explore.Ctx) {
 	}
 	{
 		lineAlpha := []string{"", " ", "  ", "    ", "a", " a", "  a", "    a", "\ta", "  \t"}
-		nl := c.Pick(4, 5)
+		nl := c.Pick(5, 6)
 		s := c.Sub("block-lines", fmt.Sprintf("every block string of ≤ %d lines over %d line shapes (blank lines of 0–4 spaces, text at indents 0, 1, 2, 4, tabs), terminated and unterminated, as an argument value and as a description", nl, len(lineAlpha)), "as bytes", "always")
 		if s != nil {
 			t0 := time.Now()
